@@ -47,3 +47,23 @@ fn c20_gray_levels_monotone() {
     if l1 <= l2 { assert!(i1 <= i2); }
     kani::cover!(i1 == 1 && i2 == 2);
 }
+
+// ---- the two hand-typed tables against the sRGB transfer function
+// expected values: linear-light value of the xterm level v, lin(v) = (v/255)/12.92 if v/255 <= 0.04045 else ((v/255 + 0.055)/1.055)^2.4,
+// evaluated in double precision when this file was written (powf is outside CBMC) and transcribed to 9 digits
+const EXP_CUBE: [f32; 6] = [0.000000000, 0.114435374, 0.242281122, 0.428690497, 0.679542470, 1.000000000];
+const EXP_GREYS: [f32; 24] = [0.002428216, 0.006048833, 0.011612245, 0.019382361, 0.029556834, 0.042311411, 0.057805430, 0.076185381, 0.097587347, 0.122138772, 0.149959790, 0.181164244, 0.215860500, 0.254152094, 0.296138271, 0.341914425, 0.391572478, 0.445201195, 0.502886458, 0.564711506, 0.630757136, 0.701101892, 0.775822218, 0.854992608];
+
+//# kind=complete tier=quick props=C20 fns=CUBE,GREYS | every entry of CUBE / GREYS is the linear-light value of the xterm level it stands for (0,95,135,175,215,255 and 8+10k) to within 1e-6 - the tables are typed to six decimals
+#[kani::proof]
+#[kani::unwind(2)]
+fn c20_tables_linear_light() {
+    assert!(CUBE.len() == 6 && GREYS.len() == 24);
+    let j: usize = kani::any();
+    kani::assume(j < 6);
+    assert!(dist(CUBE[j], EXP_CUBE[j]) <= 1e-6);
+    let k: usize = kani::any();
+    kani::assume(k < 24);
+    assert!(dist(GREYS[k], EXP_GREYS[k]) <= 1e-6);
+    kani::cover!(j == 5 && k == 23);
+}
